@@ -196,3 +196,26 @@ def release_all(h):
         elif e["val"] == 0:
             down.pop(e["code"], None)
     return [{"t": "k", "sub": s, "code": c, "val": 0} for c, s in down.items()]
+
+
+def to_toml(cfg):
+    """TOML text for a key-only configuration description (keys and actions by hex code)."""
+    out = ['collision_mode = "%s"' % cfg["cmode"],
+           "exit_sequence = [%s]" % ", ".join('"x%x"' % k for k in cfg["exitseq"]),
+           "[defaults]", "octave = %d" % cfg["octave"], "semitone = %d" % cfg["semitone"], "channel = %d" % cfg["channel"],
+           'mapping = "%s"' % cfg["mappings"][cfg["mapping"]]["name"], "velocity = %d" % cfg["velocity"],
+           "[action_mapping]"]
+    for a in cfg["actions"]:
+        out.append('x%x = "%s"' % (a["code"], a["action"]))
+    for m in cfg["mappings"]:
+        out += ["[[mapping]]", 'name = "%s"' % m["name"]]
+        subs = []
+        for k in m["midi"]:
+            if k["sub"] not in subs:
+                subs.append(k["sub"])
+        for sname in subs:
+            out += ["[[mapping.keys]]", 'subhandler = "%s"' % sname, "[mapping.keys.map]"]
+            for k in m["midi"]:
+                if k["sub"] == sname:
+                    out.append('x%x = "%d,%d"' % (k["code"], k["note"], k["off"]))
+    return "\n".join(out) + "\n"
